@@ -48,6 +48,7 @@ def run(ctx):
     d2_cauchy(ctx)
     d3_types(ctx)
     d3_hard_case_multiplier(ctx)
+    d3_pole_offset(ctx)
     ctx.trust("numpy.linalg.eigh returns eigenvalues ascending and eigenvectors as COLUMNS of the second result")
     ctx.trust("Gould, Lucidi, Roma, Toint (1999) recurrences for <z,d>_M and <d,d>_M in preconditioned CG")
     ctx.assume("trust-region radius > 0")
@@ -816,6 +817,84 @@ def d3_hard_case_multiplier(ctx):
         ctx.undecided(rule, sv, None, construct="hard-case-return", detail="no `p + tau*z` return found")
 
 
+def d3_pole_offset(ctx):
+    """Boundary case of the exact solver: the multiplier iteration starts at -(smallest eigenvalue) + offset; the offset must be
+    non-negative for every matrix, otherwise the start lies on the wrong side of the pole for matrices of negative trace."""
+    rule = "D3/T8-pole-offset-nonnegative"
+    from optilint.absdom import SignEnv, is_nonneg
+    sv = ctx.need(f"{TE}:solve")
+    cfg = cfg_of(sv)
+    eig = [n for n in cfg.nodes if n.kind == "stmt" and isinstance(n.ast, ast.Assign) and isinstance(n.ast.value, ast.Call)
+           and (dotted(n.ast.value.func) or "").split(".")[-1] in ("eigh", "eig") and isinstance(n.ast.targets[0], ast.Tuple)]
+    if len(eig) != 1:
+        ctx.undecided(rule, sv, None, construct="eigen-decomposition", detail="`values, vectors = eigh(A)` not found")
+        return
+    vals = eig[0].ast.targets[0].elts[0].id
+    found = 0
+    for n in cfg.nodes:
+        if n.kind != "stmt" or not isinstance(n.ast, ast.Assign) or not isinstance(n.ast.value, ast.IfExp):
+            continue
+        body = n.ast.value.body
+        if not (isinstance(body, ast.BinOp) and isinstance(body.op, ast.Add)):
+            continue
+        for a, b in ((body.left, body.right), (body.right, body.left)):
+            if isinstance(a, ast.UnaryOp) and isinstance(a.op, ast.USub) and same(expand(cfg, n, a.operand, stop=(vals,)), f"{vals}[0]"):
+                found += 1
+                off = expand(cfg, n, b, stop=(vals,))
+                sg = SignEnv().sign(off)
+                ok = True if is_nonneg(sg) else None
+                wit = ""
+                if ok is None:
+                    w = _vec_eval(off, {vals: [-3.0, -2.0, -1.0]})
+                    if w is not None and w < 0:
+                        ok, wit = False, f"{w:.3g} for eigenvalues (-3, -2, -1)"
+                ctx.decide(rule, ok, sv, n.ast, construct="initial-multiplier-offset", detail=f"offset `{src(off)}` is non-negative for every spectrum",
+                           bad_detail=f"`{src(n.ast)}`: the offset `{src(off)}` is {wit}: for a matrix of negative trace the boundary iteration starts "
+                                      f"below the pole -lambda_min and converges to a stationary point that is not the minimiser")
+    if not found:
+        ctx.undecided(rule, sv, None, construct="initial-multiplier-offset", detail="initial multiplier `-lambda_min + offset` not found")
+
+
+def _vec_eval(e, env):
+    """tiny evaluator for scalar expressions over one list-valued name (mean/abs/sum/max/min, + - * /)"""
+    try:
+        if isinstance(e, ast.Constant):
+            return float(e.value)
+        if isinstance(e, ast.Name):
+            return env[e.id]
+        if isinstance(e, ast.UnaryOp) and isinstance(e.op, ast.USub):
+            v = _vec_eval(e.operand, env)
+            return [-x for x in v] if isinstance(v, list) else -v
+        if isinstance(e, ast.BinOp):
+            a, b = _vec_eval(e.left, env), _vec_eval(e.right, env)
+            f = {ast.Add: lambda x, y: x + y, ast.Sub: lambda x, y: x - y, ast.Mult: lambda x, y: x * y, ast.Div: lambda x, y: x / y}[type(e.op)]
+            if isinstance(a, list) and isinstance(b, list):
+                return [f(x, y) for x, y in zip(a, b)]
+            if isinstance(a, list):
+                return [f(x, b) for x in a]
+            if isinstance(b, list):
+                return [f(a, y) for y in b]
+            return f(a, b)
+        if isinstance(e, ast.Call):
+            last = (dotted(e.func) or "").split(".")[-1]
+            v = _vec_eval(e.args[0], env)
+            if last in ("abs", "absolute", "fabs"):
+                return [abs(x) for x in v] if isinstance(v, list) else abs(v)
+            if last in ("mean", "average"):
+                return sum(v) / len(v)
+            if last == "sum":
+                return sum(v)
+            if last in ("max", "amax"):
+                return max(v)
+            if last in ("min", "amin"):
+                return min(v)
+        if isinstance(e, ast.Subscript) and isinstance(e.slice, ast.Constant):
+            return _vec_eval(e.value, env)[e.slice.value]
+    except (KeyError, TypeError, ZeroDivisionError, IndexError, ValueError):
+        return None
+    return None
+
+
 def variants(repo):
     from optilint.selftest import Variant, sub, sub_in_func, alpha_rename, reformat
     E = "optimism/EquationSolver.py"
@@ -844,6 +923,8 @@ def variants(repo):
         Variant("v[0] row", T, sub("        z = v[:,0]", "        z = v[0]"), "D3/T9-index-space-types"),
         Variant("v.T@ where v@ is meant", T, sub("        p = -v@(bv/(sig+lam))", "        p = -v.T@(bv/(sig+lam))"), "D3/T9-index-space-types"),
         Variant("b/sig", T, sub("norm(bv/sig) < Delta", "norm(b/sig) < Delta"), "D3/T9-index-space-types"),
+        Variant("pole offset follows the sign of the trace", T, sub("    sigScale = np.mean( np.abs(sig) )", "    sigScale = np.mean(sig)"), "D3/T8-pole-offset-nonnegative"),
+        Variant("pole offset negative", T, sub("    eps = 1e-12 * sigScale", "    eps = -1e-12 * sigScale"), "D3/T8-pole-offset-nonnegative"),
         Variant("np.sign in hard case", T, sub("pzSign = np.where(pz >= 0, 1.0, -1.0)", "pzSign = np.sign(pz)"), "D3/T7-hard-case-multiplier"),
         Variant("hard case multiplier wrong root", T, sub("tau = ddmpp / (pz + pzSign*np.sqrt(pz*pz + ddmpp))", "tau = ddmpp / (pz + pzSign*np.sqrt(pz*pz - ddmpp))"), "D3/T7-hard-case-multiplier"),
         Variant("reformat EquationSolver", E, reformat(), None),
